@@ -282,6 +282,8 @@ method_fail_setting (int m)
 
 static char cj[700];
 static struct crypt_data *D;
+static const char *alt_setting;        /* salt-length variants: replaces the method's canonical setting */
+static const char *rp_override;
 
 static void
 one_case (int m, int kind, int pli, int ep)
@@ -294,7 +296,7 @@ one_case (int m, int kind, int pli, int ep)
   char *phrase = malloc (pl + 1);       /* the caller's copy lives in the heap, outside every scanned area */
   memcpy (phrase, ph, pl + 1);
   memset (ph, 0, sizeof ph);
-  const char *setting = vh_cheap[m][0];
+  const char *setting = alt_setting ? alt_setting : vh_cheap[m][0];
   if (kind == K_METHOD_FAIL)
     setting = method_fail_setting (m);
   else if (kind == K_BADCHAR)
@@ -318,6 +320,8 @@ one_case (int m, int kind, int pli, int ep)
       return;
     }
   snprintf (rp, sizeof rp, "%d:%d:%d:%d", m, kind, pli, ep);
+  if (rp_override)
+    snprintf (rp, sizeof rp, "%s", rp_override);
   snprintf (cj, sizeof cj, "{\"method\":\"%s\",\"outcome_kind\":\"%s\",\"phrase_len\":%zu,\"entry\":\"%s\",\"setting\":%s,\"replay\":\"%s\"", vh_methods[m].name,
             kname[kind], pl, epname[ep], vh_jstr (setting), rp);
   /* object: scratch pre-filled so that "untouched" and "erased" are both visible */
@@ -568,6 +572,34 @@ histories (void)
         }
 }
 
+/* salt lengths across one hash block of the KDF's first HMAC (scrypt, yescrypt, gost-yescrypt: the salt is PBKDF2's message;
+   sha1crypt: HMAC text): the padding class of the salt selects different code paths, each with its own scratch to erase */
+static void
+salt_variant (int w, int L, int pk)
+{
+  static char ss[120], rpo[48];
+  static const int wm[4] = { M_SCRYPT, M_YESCRYPT, M_GOST, M_SHA1 };
+  static const char *const head[4] = { "$7$2/..../....", "$y$j/.$", "$gy$j/.$", "$sha1$20$" };
+  if ((w == 1 || w == 2) && L % 4 == 1)
+    return;
+  size_t hl = strlen (head[w]);
+  memcpy (ss, head[w], hl);
+  for (int i = 0; i < L; i++)
+    ss[hl + (size_t) i] = A64[(i * 7 + L) % 64];
+  if ((w == 1 || w == 2) && L % 4 == 2)
+    ss[hl + (size_t) L - 1] = A64[(strchr (A64, ss[hl + (size_t) L - 1]) - A64) & 3];
+  if ((w == 1 || w == 2) && L % 4 == 3)
+    ss[hl + (size_t) L - 1] = A64[(strchr (A64, ss[hl + (size_t) L - 1]) - A64) & 15];
+  ss[hl + (size_t) L] = 0;
+  snprintf (rpo, sizeof rpo, "A:%d:%d:%d", w, L, pk);
+  alt_setting = ss;
+  rp_override = rpo;
+  one_case (wm[w], K_SUCCESS, pk == 0 ? 2 : pk == 1 ? 5 : 7, (L + pk) % 3);
+  alt_setting = 0;
+  rp_override = 0;
+  vh_stat ("salt_length_variants", 1);
+}
+
 int
 main (int argc, char **argv)
 {
@@ -582,6 +614,13 @@ main (int argc, char **argv)
         entropy_case (a, b, c);
       else if (sscanf (vh_replay, "%d:%d:%d:%d", &a, &b, &c, &d) == 4)
         one_case (a, b, c, d);
+      else if (vh_replay[0] == 'A')
+        {
+          int w, L, pk;
+          if (sscanf (vh_replay, "A:%d:%d:%d", &w, &L, &pk) != 3)
+            vh_internal ("bad replay token");
+          salt_variant (w, L, pk);
+        }
       else if (vh_replay[0] == 'p')
         primitives ();
       else
@@ -616,6 +655,11 @@ main (int argc, char **argv)
                              vh_methods[m].name, NKIND, VH_SCAN_STACK ? ", 1 MiB call stack" : "");
               }
           }
+  for (int L = 40; L <= 70 && !vh_expired (); L++)
+    for (int w = 0; w < 4; w++)
+      for (int pk = 0; pk < 3; pk++)
+        if (vh_mine (idx++))
+          salt_variant (w, L, pk);
   if (vh_thorough)
     for (int m = 0; m < M_COUNT && !vh_expired (); m++)
       for (int len = 6; len <= 511; len++)
